@@ -9,7 +9,7 @@ import itertools
 
 import z3
 
-from tpv import core
+from tpv import core, tlib
 from tpv.core import zint, zreal, Sym, Dim
 from tpv.spec import scenario
 from tpv.tlib import Tensor
@@ -294,6 +294,29 @@ def points_operations(S):
         S.ensure(f"{nm}-keeps-space", keys(S.getattr(o, "space")) == ["x"])
         S.forall(f"{nm}-elementwise", o.f["_t"], lambda q, f=f, ot=ot: zreal(ot.at(q)) == f(zreal(A.val.at(q)), zreal(A3.val.at(q))))
     S.ensure_raises("arithmetic-rejects-other-space", lambda: I.binop(ast.Add(), a, b), "AssertionError")
+    # pre of the division: every entry of the divisor is non-zero (axiom on access)
+    NZ = S.tensor("NZ", [N, 2], on_access=lambda idx, v: S.ctx.axiom(v != 0))
+    nz = S.new(P, NZ, spa)
+    dv = S.outcome(lambda: I.binop(ast.Div(), a, nz))
+    S.ensure("division-defined", dv[0] == "ok")
+    if dv[0] == "ok":
+        dt_ = tensor_of(dv[1])
+        S.ensure("div-keeps-space", keys(S.getattr(dv[1], "space")) == ["x"])
+        S.forall("div-elementwise", dv[1].f["_t"], lambda q: z3.Implies(zreal(NZ.val.at(q)) != 0, zreal(dt_.at(q)) * zreal(NZ.val.at(q)) == zreal(A.val.at(q))))
+    pw = I.binop(ast.Pow(), a, a3)
+    pt_ = tensor_of(pw)
+    S.ensure("pow-keeps-space", keys(S.getattr(pw, "space")) == ["x"])
+    S.forall("pow-elementwise", pw.f["_t"], lambda q: zreal(pt_.at(q)) == tlib._POW(zreal(A.val.at(q)), zreal(A3.val.at(q))))
+    S.ensure_raises("pow-and-division-reject-other-space", lambda: I.binop(ast.Pow(), a, b), "AssertionError")
+    # iteration over the first batch axis: item i is row i as a Points object over the same space
+    two, TWO, sp2 = mk_points(S, [("x", 1), ("t", 1)], 2, "TWO")
+    items = list(I.iterate(two))
+    S.ensure("iteration-yields-one-item-per-row", len(items) == 2)
+    for i_, it in enumerate(items):
+        tt_ = tensor_of(it)
+        S.ensure(f"item-{i_}-is-a-points-object-over-the-same-space", keys(S.getattr(it, "space")) == ["x", "t"] and tt_.rank == 2 and tt_.shape[0].is_one)
+        if tt_.rank == 2 and tt_.shape[0].is_one:
+            S.forall(f"item-{i_}-is-row-{i_}", it.f["_t"], lambda q, i_=i_, tt_=tt_: zreal(tt_.at(q)) == zreal(TWO.val.at([(i_,), q[1]])))
     # equality: same data, permuted variable order -> different
     xy, XY, _ = mk_points(S, [("x", 1), ("y", 1)], N, "XY")
     yx = S.new(P, XY, mul(S, S.new(RN, "y", 1), S.new(RN, "x", 1)))
